@@ -4,7 +4,7 @@ from __future__ import annotations
 import ast
 
 from ..model import AnalysisError, EnumVal, dotted, norm_text, unparse, walk_no_nested
-from ..q import NONEXC, Fn
+from ..q import find_case_table, NONEXC, Fn
 from .common import AT4_API, AT5_API, API, fn_of
 from . import c12
 
@@ -170,13 +170,13 @@ def r2(ctx):
     for modname, clsname in ((AT4_API, "At4AirConditioner"), (AT5_API, "At5AirConditioner")):
         f = fn_of(ctx, modname, f"{clsname}.next_quick_timer")
         m = f.module
-        cases = [n for n in f.cfg.nodes if n.kind == "case"]
         pairs = {}
-        for c in cases:
-            pat = unparse(c.ast.pattern)
-            for st in c.ast.body:
+        for kind, key, body in (find_case_table(f.node, "timer_type") or []):
+            if kind != "eq":
+                continue
+            for st in body:
                 if isinstance(st, ast.Assign):
-                    pairs[pat.split(".")[-1]] = norm_text(st.value)
+                    pairs[norm_text(key).split(".")[-1]] = norm_text(st.value)
         ok = pairs.get("OFF_TIMER") == "self._ac_timer_status.off_timer" and pairs.get("ON_TIMER") == "self._ac_timer_status.on_timer"
         ctx.check(ok, R, f"{clsname}.next_quick_timer:selects-timer", m, f.node, "OFF_TIMER -> _ac_timer_status.off_timer, ON_TIMER -> .on_timer", str(pairs))
         rets = [x for x in walk_no_nested(f.node) if isinstance(x, ast.Return)]
@@ -262,20 +262,19 @@ def r5(ctx):
     m = ctx.repo.module(AT5_API)
     for which, fn in (("min", "min"), ("max", "max")):
         f = fn_of(ctx, AT5_API, f"At5AirConditioner.{which}_target_temperature")
-        match = next((s for s in f.node.body if isinstance(s, ast.Match)), None)
-        if match is None or norm_text(match.subject) != "self._ac_status.mode":
-            ctx.violation(R, f"At5AirConditioner.{which}_target_temperature:shape", m, f.node, "match self._ac_status.mode: HEAT / COOL / default", "different structure")
+        table = find_case_table(f.node, "self._ac_status.mode")
+        if table is None:
+            ctx.violation(R, f"At5AirConditioner.{which}_target_temperature:shape", m, f.node, "a case distinction on self._ac_status.mode: HEAT / COOL / default", "different structure")
             continue
         got = {}
-        for c in match.cases:
-            pat = unparse(c.pattern)
-            key = "default" if isinstance(c.pattern, ast.MatchAs) and c.pattern.pattern is None else pat.split(".")[-1]
-            rets = [x for s in c.body for x in ast.walk(s) if isinstance(x, ast.Return)]
-            got[key] = norm_text(rets[0].value) if len(rets) == 1 and rets[0].value is not None else "?"
-            if key != "default":
-                v = ctx.repo.try_fold(m, ast.parse(pat, mode="eval").body)
+        for kind, kexpr, body in table:
+            key = "default" if kind == "default" else norm_text(kexpr).split(".")[-1]
+            rets = [x for s in body for x in ast.walk(s) if isinstance(x, ast.Return)]
+            got.setdefault(key, norm_text(rets[0].value) if len(rets) == 1 and rets[0].value is not None else "?")
+            if kind == "eq":
+                v = ctx.repo.try_fold(m, kexpr)
                 ok = isinstance(v, EnumVal) and v.cls.name == "AcMode" and v.cls.module.name.endswith("xC023_ac_status")
-                ctx.check(ok, R, f"At5AirConditioner.{which}_target_temperature:case({key}):enum", m, c.pattern, "case pattern is a member of the status AcMode (the type of _ac_status.mode)", pat)
+                ctx.check(ok, R, f"At5AirConditioner.{which}_target_temperature:case({key}):enum", m, kexpr, "the compared value is a member of the status AcMode (the type of _ac_status.mode)", norm_text(kexpr))
         want = {
             "HEAT": f"self._ac_ability.{which}_heat_set_point",
             "COOL": f"self._ac_ability.{which}_cool_set_point",
